@@ -297,8 +297,17 @@ def cross_package_scenario(root):
     open(os.path.join(d, "aux.py"), "w").write(
         M + '\n\n@memento_function(cluster="vp")\ndef load(x):\n    return x + 1\n\n\n@memento_function(cluster="vp")\ndef filter(x):\n    return x + 2\n\n\n'
         '@memento_function(cluster="vp")\ndef format(x):\n    return x + 3\n\n\n@memento_function(cluster="vp")\ndef render(x):\n    return x + 4\n')
+    os.makedirs(os.path.join(d, "plugins"), exist_ok=True)
+    open(os.path.join(d, "plugins", "__init__.py"), "w").write("")
+    open(os.path.join(d, "plugins", "tools.py"), "w").write(
+        M + '\n\n@memento_function(cluster="vp")\ndef lookup(x):\n    return x + 7\n\n\ndef enrich(x):\n    return lookup(x)\n')
     open(os.path.join(d, "mod.py"), "w").write(
-        M + 'import %s.core\nimport %s.core as corealias\nfrom . import aux\nfrom .aux import load, filter, format\nfrom .aux import render as repr\n\n\n' % (lib, lib) +
+        M + 'import %s.core\nimport %s.core as corealias\nfrom . import aux\nfrom .aux import load, filter, format\nfrom .aux import render as repr\n'
+            'from .plugins import tools\n\n\n' % (lib, lib) +
+        # a plain helper of the package referred to by an alias; a plain function of a *sub-package* (another package)
+        'def prepare(x):\n    return load(x)\n\n\nprep = prepare\n\n\n'
+        '@memento_function(cluster="vp")\ndef through_alias(x):\n    return prep(x)\n\n\n'
+        '@memento_function(cluster="vp")\ndef through_subpackage(x):\n    return tools.enrich(x)\n\n\n' +
         'def helper(x):\n    return %s.core.price(x)\n\n\n' % lib +
         '@memento_function(cluster="vp")\ndef by_attr(x):\n    return %s.core.price(x)\n\n\n' % lib +
         '@memento_function(cluster="vp")\ndef by_alias(x):\n    return corealias.price(x)\n\n\n'
@@ -309,17 +318,20 @@ def cross_package_scenario(root):
         '@memento_function(cluster="vp")\ndef hidden_pmap(x):\n    return sorted(vars(aux)["lo" + "ad"].force_local().map_over_range(x=[x, x + 1]).items())\n\n\n'
         '@memento_function(cluster="vp")\ndef hidden_batch(x):\n    return vars(aux)["lo" + "ad"].call_batch([{"x": x}])\n')
     want = [("by_attr", ["leaf", "price"], ["ok", 6]), ("by_alias", ["leaf", "price"], ["ok", 6]), ("through_helper", ["leaf", "price"], ["ok", 6]),
-            ("builtin_names", ["filter", "format", "load"], ["ok", [4, 5, 3]]), ("alias_builtin", ["render"], ["ok", 6])]
+            ("builtin_names", ["filter", "format", "load"], ["ok", [4, 5, 3]]), ("alias_builtin", ["render"], ["ok", 6]),
+            ("through_alias", ["load"], ["ok", 3])]
     acts = [["import"]]
     for who, _, _ in want:
         acts += [["deps", who], ["call", who, 2]]
-    hidden = ["hidden_map", "hidden_pmap", "hidden_batch"]
+    hidden = ["hidden_map", "hidden_pmap", "hidden_batch", "through_subpackage"]
     acts += [["call", h, 2] for h in hidden]
     fails = []
     out = vrun.child(dict(root=root, pkg=pkg, store=os.path.join(root, "store_cross"), actions=acts))
     try:
         for i, (who, trans, val) in enumerate(want):
             dep, res = out[1 + 2 * i], out[2 + 2 * i]
+            if who == "through_alias" and dep["edges"] != [["through_alias", "load"]]:
+                fails.append(dict(clause="graph-exact", scenario="cross-package-and-builtin-names", fn=who, got=dep["edges"], expected=[["through_alias", "load"]]))
             if dep["trans"] != trans:
                 fails.append(dict(clause="transitive-dependencies-exact", scenario="cross-package-and-builtin-names", fn=who, got=dep["trans"], expected=trans))
             if res["result"][:2] != val:
